@@ -383,6 +383,37 @@ def ansHistBoth (a : List String) : String :=
 
 def flagOf (s : String) : Bool := s == "1"
 
+/-- the value rebuilt along route `k` through the safe API (harness: `route_value`) -/
+def routeValue (x : Locale) (k : Nat) : Option Locale :=
+  let vs := x.id.variantList
+  match k with
+  | 0 => some { x with id := x.id.setVariants vs }
+  | 1 => some { x with id := (x.id.clearVariants).setVariants vs }
+  | 2 =>
+    let (l, s, r, vv, e) := x.intoParts
+    (ExtMap.fromBytes e).toOption.map fun em => Locale.fromParts l s r vv (some em)
+  | 3 => (Locale.fromBytes x.display).toOption
+  | 4 => some { (Locale.ofLangId x.toLangId) with ext := x.ext }
+  | 5 =>
+    let u := x.ext.unicode
+    let ops : List Op :=
+      u.attributes.map .removeAttribute ++ u.attributes.reverse.map .setAttribute ++
+      (u.keywords.reverse.map fun kv => [Op.removeKeyword kv.1, Op.setKeyword kv.1 kv.2]).flatten ++
+      (x.ext.transform.tfields.reverse.map fun kv => [Op.removeTField kv.1, Op.setTField kv.1 kv.2]).flatten ++
+      (match x.ext.transform.tlang with
+        | some tl => [Op.clearTLang, Op.setTLang tl.display]
+        | none => []) ++
+      [Op.clearTags] ++ x.ext.priv.reverse.map .addTag
+    some (runState Gen.tables x ops)
+  | 6 =>
+    match Language.fromBytes (Language.asStr x.id.language) with
+    | .ok l =>
+      let sc := x.id.script.bind fun s => (Script.fromBytes s).toOption
+      let rg := x.id.region.bind fun s => (Region.fromBytes s).toOption
+      some { x with id := { x.id with language := l, script := sc, region := rg } }
+    | _ => none
+  | _ => some (Locale.fromParts x.id.language x.id.script x.id.region (vs.reverse ++ vs) (some x.ext))
+
 /-- `LanguageIdentifier::maximize/minimize` as the statement describes them: the look-up result replaces the three
     fields and the call reports `true`; no result leaves the value alone and reports `false` -/
 def specApply (f : Language → Option Bytes → Option Bytes → Option (Language × Option Bytes × Option Bytes)) (x : LangId) :
@@ -417,7 +448,12 @@ def answer (line : String) : String :=
       | some v => withSpec (resLang (Language.fromBytes v)) (specLang v)
       | none => "bad"
     | "langopt" => match (a[0]?).bind unhexOpt with
-      | some o => resLang (Language.tryFromOption o)
+      | some o =>
+        -- `TryFrom<Option<T>>`: `None` is the empty language, `Some(text)` is what parsing the text gives
+        let sp := match o with
+          | some v => specLang v
+          | none => "ok und;und;1;1;rt=1"
+        withSpec (resLang (Language.tryFromOption o)) sp
       | none => "bad"
     | "langdefault" => s!"{resLang (.ok Language.default)} | {resLang (.ok Language.default)}"
     | "script" => match arg 0 with
@@ -630,41 +666,42 @@ def answer (line : String) : String :=
         match Locale.fromBytes v with
         | .ok x =>
           let k := ((a[1]?).bind String.toNat?).getD 0
-          let vs := x.id.variantList
-          let y : Option Locale :=
-            match k with
-            | 0 => some { x with id := x.id.setVariants vs }
-            | 1 => some { x with id := (x.id.clearVariants).setVariants vs }
-            | 2 =>
-              let (l, s, r, vv, e) := x.intoParts
-              (ExtMap.fromBytes e).toOption.map fun em => Locale.fromParts l s r vv (some em)
-            | 3 => (Locale.fromBytes x.display).toOption
-            | 4 => some { (Locale.ofLangId x.toLangId) with ext := x.ext }
-            | 5 =>
-              let u := x.ext.unicode
-              let ops : List Op :=
-                u.attributes.map .removeAttribute ++ u.attributes.reverse.map .setAttribute ++
-                (u.keywords.reverse.map fun kv => [Op.removeKeyword kv.1, Op.setKeyword kv.1 kv.2]).flatten ++
-                (x.ext.transform.tfields.reverse.map fun kv => [Op.removeTField kv.1, Op.setTField kv.1 kv.2]).flatten ++
-                (match x.ext.transform.tlang with
-                  | some tl => [Op.clearTLang, Op.setTLang tl.display]
-                  | none => []) ++
-                [Op.clearTags] ++ x.ext.priv.reverse.map .addTag
-              some (runState Gen.tables x ops)
-            | 6 =>
-              match Language.fromBytes (Language.asStr x.id.language) with
-              | .ok l =>
-                let sc := x.id.script.bind fun s => (Script.fromBytes s).toOption
-                let rg := x.id.region.bind fun s => (Region.fromBytes s).toOption
-                some { x with id := { x.id with language := l, script := sc, region := rg } }
-              | _ => none
-            | _ => some (Locale.fromParts x.id.language x.id.script x.id.region (vs.reverse ++ vs) (some x.ext))
-          match y with
+          match routeValue x k with
           | some y => s!"ok eq={b01 (x == y)} cmp={ordStr (cmpLoc x y)} he={b01 (x == y)} se={b01 (x.display == y.display)}"
           | none => "ok fail"
         | .err e => errCode e
         | .panic => "panic"
       | none => "bad"
+    | "matchr" => match arg 0, arg 1 with
+      | some xv, some yv =>
+        match Locale.fromBytes xv, Locale.fromBytes yv with
+        | .ok x, .ok y =>
+          let ra := flagOf (a[2]?.getD "0")
+          let rb := flagOf (a[3]?.getD "0")
+          let k := ((a[4]?).bind String.toNat?).getD 0
+          match routeValue x k with
+          | some x2 =>
+            -- the reference is computed on the parsed value: every route is the identity on the abstract value
+            withSpec s!"ok {b01 (Locale.isMatch x2 y ra rb)} {b01 (LangId.isMatch x2.id y.id ra rb)} {b01 (Locale.isMatch y x2 rb ra)}"
+              s!"ok {b01 (Spec.localeMatchesB x y ra rb)} {b01 (Spec.matchesB x.id y.id ra rb)} {b01 (Spec.localeMatchesB y x rb ra)}"
+          | none => "ok fail"
+        | _, _ => "err"
+      | _, _ => "bad"
+    | "macrel" =>
+      match a with
+      | [_, h] =>
+        match unhex h with
+        | none => "bad"
+        | some lit =>
+          match Locale.fromBytes lit, Macros.locale lit with
+          | .ok p, .value m =>
+            let li := match Macros.langid lit, LangId.fromBytes lit with
+              | .value x, .ok _ =>
+                s!" lieq={b01 (x == p.id)} licmp={ordStr (cmpLi x p.id)} lihe={b01 (x == p.id)} lim={b01 (LangId.isMatch x p.id false false)}{b01 (LangId.isMatch p.id x true false == LangId.isMatch p.id p.id true false)}"
+              | _, _ => ""
+            s!"ok eq={b01 (m == p)} cmp={ordStr (cmpLoc m p)} he={b01 (m == p)} se={b01 (m.display == p.display)} m={b01 (Locale.isMatch m p false false == Locale.isMatch p p false false)}{b01 (Locale.isMatch m p true false == Locale.isMatch p p true false)}{b01 (Locale.isMatch p m false true == Locale.isMatch p p false true)} ideq={b01 (m.id == p.id)}{li}"
+          | _, _ => "ok parsefail"
+      | _ => "bad"
     | "eqstr" => match arg 0, arg 1 with
       | some x, some y =>
         match LangId.fromBytes x with
